@@ -710,6 +710,23 @@ pub async fn process_fully_buffered_changes(
 pub static VERIF_FAIL_BATCHES: std::sync::atomic::AtomicUsize =
     std::sync::atomic::AtomicUsize::new(0);
 
+/// Verification hook: consume one injected failure, if any is pending.
+#[cfg(corro_verif)]
+pub fn verif_take_failure() -> Option<ChangeError> {
+    VERIF_FAIL_BATCHES
+        .fetch_update(
+            std::sync::atomic::Ordering::SeqCst,
+            std::sync::atomic::Ordering::SeqCst,
+            |n| n.checked_sub(1),
+        )
+        .ok()
+        .map(|_| ChangeError::Rusqlite {
+            source: rusqlite::Error::InvalidQuery,
+            actor_id: None,
+            version: None,
+        })
+}
+
 #[tracing::instrument(skip(agent, bookie, changes), err)]
 pub async fn process_multiple_changes(
     agent: Agent,
